@@ -20,7 +20,7 @@ func init() {
 		ID: "C18",
 		Rule: "per generated document: (a) every split of generated multi-step paths into prefix P / suffix R (all axes, predicates, reverse axes leaving the subtree): identity-set equality of Exec(root,'P/R') with the union over n in Exec(root,P) of Exec(n,R) — library vs library — and with the reference model; " +
 			"(b) Exec(n, R) for every node n of every kind (element, attribute, namespace, text, comment, PI, root) x relative expressions vs the model with context (n,1,1); (c) position() and last() as whole expressions from every start node; " +
-			"(d) P/f() vs f(P) for f in {string, number, name, local-name, namespace-uri, string-length, normalize-space}. distinct_nontrivial = distinct (document shape, expression, split point / start-node kind) with a non-empty result",
+			"(e) the same composition for prefixes that mix elements with their own attribute and namespace nodes — parenthesised unions (A | A/@* | A//@*) and node-set variables held in document, reverse and shuffled order — continued with /R and //R; (d) P/f() vs f(P) for f in {string, number, name, local-name, namespace-uri, string-length, normalize-space}. distinct_nontrivial = distinct (document shape, expression, split point / start-node kind) with a non-empty result",
 		Assumptions: []string{"function-call steps are generated only as zero-argument context-dependent builtins (the form the statement covers)", "absolute paths inside R are not generated (root of a sub-query is ambiguous)"},
 		NCases:      func(tier string) int { return map[string]int{"quick": 2500, "thorough": 100000}[tier] },
 		Case:        c18Case,
@@ -134,6 +134,128 @@ func c18Case(r *evid.Run, tier string, idx int, g *rng.R) {
 			if len(wholeSet) > 0 {
 				r.Sample("split", 3, map[string]any{"case": idx, "P": xast.String(P), "R": rs, "prefix_nodes": len(pns), "result_nodes": len(wholeSet), "document": d.Dump()})
 			}
+		}
+	}
+	// (e) prefixes that mix elements with their own attribute / namespace nodes (parenthesised unions,
+	// node-set variables in document, reverse and shuffled order) continued with '/' and '//'
+	var mixPool []*adoc.Node
+	for _, x := range d.All {
+		if g.P(35) {
+			mixPool = append(mixPool, x)
+		}
+	}
+	mixSet := refeval.NodeSet(adoc.SortDoc(mixPool))
+	mixFwd := w.m.Lib(mixSet).(xsel.NodeSet)
+	mixRev := make(xsel.NodeSet, len(mixFwd))
+	for i := range mixFwd {
+		mixRev[len(mixFwd)-1-i] = mixFwd[i]
+	}
+	mixShuf := append(xsel.NodeSet{}, mixFwd...)
+	rng.Shuffle(g, mixShuf)
+	w.env.Vars = map[refeval.Name]refeval.Value{{Local: "mix"}: mixSet, {Local: "mixrev"}: mixSet, {Local: "mixshuf"}: mixSet}
+	mixBind := []xsel.ContextApply{xsel.WithVariable("mix", mixFwd), xsel.WithVariable("mixrev", mixRev), xsel.WithVariable("mixshuf", mixShuf)}
+	tails := []xast.Path{
+		xast.Rel(xast.S("self", xast.NodeT())), xast.Rel(xast.Step{Axis: "self", Test: xast.NodeT(), Abbrev: true}),
+		xast.Rel(xast.S("ancestor-or-self", xast.NodeT(), xast.N(1))), xast.Rel(xast.S("following", xast.AnyT(), xast.N(1))),
+		xast.Rel(xast.S("self", xast.NodeT(), xast.Fn("not", xast.Rel(xast.S("self", xast.AnyT()))))), xast.Rel(xast.S("parent", xast.AnyT())),
+	}
+	for i := 0; i < n; i++ {
+		var head xast.Expr
+		switch g.Intn(5) {
+		case 0:
+			head = xast.Var{Local: "mix"}
+		case 1:
+			head = xast.Var{Local: rng.Pick(g, []string{"mixrev", "mixshuf"})}
+		default:
+			a := gen.AbsPath(1)
+			extra := xast.Step{Axis: "attribute", Test: xast.AnyT(), Abbrev: g.Bool()}
+			if g.P(30) {
+				extra = xast.S("namespace", xast.AnyT())
+			}
+			b := a
+			b.Steps = append(append([]xast.Step{}, a.Steps...), extra)
+			var u xast.Expr = xast.Binary{Op: "|", L: a, R: b}
+			if g.P(30) {
+				c := a
+				c.Steps = append(append([]xast.Step{}, a.Steps...), xast.DS(), xast.Step{Axis: "attribute", Test: xast.AnyT(), Abbrev: true})
+				u = xast.Binary{Op: "|", L: u, R: c}
+			}
+			head = xast.Paren{X: u}
+		}
+		tail := rng.Pick(g, tails)
+		if g.P(40) {
+			tail = gen.RelPath(1)
+		}
+		dslash := g.P(65)
+		full := xast.Path{Head: head}
+		if dslash {
+			full.Steps = append(full.Steps, xast.DS())
+		}
+		full.Steps = append(full.Steps, tail.Steps...)
+		whole, wok := w.check(r, "mixed-prefix/whole", idx, d.Root, full, false, mixBind...)
+		if !wok {
+			continue
+		}
+		wholeSet, _ := whole.(refeval.NodeSet)
+		// the same through sub-queries: Exec(root, head) then Exec(n, [.//]tail) from every node
+		pres, perr := ExecStr(w.m.Root, xast.String(xast.Path{Head: head}), append(append([]xsel.ContextApply{}, w.opts...), mixBind...)...)
+		pns, isSet := pres.(xsel.NodeSet)
+		r.Eval(1)
+		if perr != nil || !isSet {
+			// a bare variable reference or parenthesised union is always a node-set here
+			r.Violate("mixed-prefix/prefix-error", map[string]any{"case": idx, "what": fmt.Sprintf("%s fails (%s) although %s succeeds", xast.String(head), errStr(perr), xast.String(full)), "document": d.Dump()})
+			continue
+		}
+		sub := xast.Path{Steps: tail.Steps}
+		if dslash {
+			sub.Steps = append([]xast.Step{xast.S("descendant-or-self", xast.NodeT())}, tail.Steps...)
+		}
+		subs := xast.String(sub)
+		acc := map[*adoc.Node]bool{}
+		bad := false
+		kinds := map[string]bool{}
+		for _, c := range pns {
+			kinds[w.m.ToA[c].Kind.String()] = true
+			res, serr := ExecStr(c, subs, w.opts...)
+			r.Eval(1)
+			sns, ok := res.(xsel.NodeSet)
+			if serr != nil || !ok {
+				r.Violate("mixed-prefix/suffix-error", map[string]any{"case": idx, "what": fmt.Sprintf("Exec(%s, %s) fails: %s", w.m.ToA[c].Path(), subs, errStr(serr)), "document": d.Dump()})
+				bad = true
+				break
+			}
+			as, aerr := w.m.Nodes(sns)
+			if aerr != nil {
+				bad = true
+				break
+			}
+			for _, a := range as {
+				acc[a] = true
+			}
+		}
+		if bad {
+			continue
+		}
+		r.Count("mixed_prefix_compositions", 1)
+		same := len(acc) == len(wholeSet)
+		for _, a := range wholeSet {
+			if !acc[a] {
+				same = false
+			}
+		}
+		if !same {
+			var union []*adoc.Node
+			for a := range acc {
+				union = append(union, a)
+			}
+			r.Violate("mixed-prefix/compose", map[string]any{"case": idx,
+				"what":     fmt.Sprintf("Exec(root, %s) = %s but the union of Exec(n, %s) over n in Exec(root, %s) = %s", xast.String(full), bridge.Show(whole), subs, xast.String(head), bridge.Show(refeval.NodeSet(adoc.SortDoc(union)))),
+				"document": d.Dump()})
+			continue
+		}
+		r.Sig(fmt.Sprintf("%s|%s|mixed", shape, xast.String(full)), len(wholeSet) > 0 && len(kinds) > 1)
+		if len(wholeSet) > 0 && len(kinds) > 1 {
+			r.Sample("mixed-prefix", 2, map[string]any{"case": idx, "expr": xast.String(full), "prefix_nodes": len(pns), "result_nodes": len(wholeSet)})
 		}
 	}
 	// (b) relative expressions from every node of every kind
